@@ -87,6 +87,11 @@ impl<F: std::future::Future> std::future::Future for CatchUnwind<F> {
     }
 }
 
+/// A panic that comes out of an awaited call (instead of an error value) must not take the history down.
+async fn guarded<F: std::future::Future>(f: F) -> Result<F::Output, String> {
+    CatchUnwind(Box::pin(f)).await.map_err(|_| "the awaited call itself panicked".to_string())
+}
+
 // ------------------------------------------------------------------ backend abstraction
 
 enum AnyPool {
@@ -109,19 +114,22 @@ impl AnyPool {
     async fn get(&self) -> Result<AnyConn, String> {
         let t = Duration::from_secs(20);
         match self {
-            AnyPool::Sqlite(p) => match tokio::time::timeout(t, p.get()).await {
-                Ok(Ok(c)) => Ok(AnyConn::Sqlite(c)),
-                Ok(Err(e)) => Err(format!("{:?}", e)),
+            AnyPool::Sqlite(p) => match tokio::time::timeout(t, CatchUnwind(Box::pin(p.get()))).await {
+                Ok(Ok(Ok(c))) => Ok(AnyConn::Sqlite(c)),
+                Ok(Ok(Err(e))) => Err(format!("{:?}", e)),
+                Ok(Err(())) => Err("get() itself panicked".into()),
                 Err(_) => Err("hang".into()),
             },
-            AnyPool::R2d2(p, _) => match tokio::time::timeout(t, p.get()).await {
-                Ok(Ok(c)) => Ok(AnyConn::R2d2(c)),
-                Ok(Err(e)) => Err(format!("{:?}", e)),
+            AnyPool::R2d2(p, _) => match tokio::time::timeout(t, CatchUnwind(Box::pin(p.get()))).await {
+                Ok(Ok(Ok(c))) => Ok(AnyConn::R2d2(c)),
+                Ok(Ok(Err(e))) => Err(format!("{:?}", e)),
+                Ok(Err(())) => Err("get() itself panicked".into()),
                 Err(_) => Err("hang".into()),
             },
-            AnyPool::Diesel(p) => match tokio::time::timeout(t, p.get()).await {
-                Ok(Ok(c)) => Ok(AnyConn::Diesel(c)),
-                Ok(Err(e)) => Err(format!("{:?}", e)),
+            AnyPool::Diesel(p) => match tokio::time::timeout(t, CatchUnwind(Box::pin(p.get()))).await {
+                Ok(Ok(Ok(c))) => Ok(AnyConn::Diesel(c)),
+                Ok(Ok(Err(e))) => Err(format!("{:?}", e)),
+                Ok(Err(())) => Err("get() itself panicked".into()),
                 Err(_) => Err("hang".into()),
             },
         }
@@ -139,41 +147,39 @@ impl AnyConn {
     /// Reads the identity marker; a fresh connection (marker 0) is stamped with `fresh`.
     async fn marker(&self, fresh: u64) -> Result<u64, String> {
         match self {
-            AnyConn::Sqlite(c) => c
-                .interact(move |c| {
-                    let v: i64 = c.pragma_query_value(None, "user_version", |r| r.get(0))?;
-                    if v == 0 {
-                        c.pragma_update(None, "user_version", fresh as i64)?;
-                        Ok::<u64, deadpool_sqlite::rusqlite::Error>(fresh)
-                    } else {
-                        Ok(v as u64)
-                    }
-                })
-                .await
-                .map_err(|e| format!("{}", e))?
+            AnyConn::Sqlite(c) => guarded(c.interact(move |c| {
+                let v: i64 = c.pragma_query_value(None, "user_version", |r| r.get(0))?;
+                if v == 0 {
+                    c.pragma_update(None, "user_version", fresh as i64)?;
+                    Ok::<u64, deadpool_sqlite::rusqlite::Error>(fresh)
+                } else {
+                    Ok(v as u64)
+                }
+            }))
+            .await?
+            .map_err(|e| format!("{}", e))?
                 .map_err(|e| format!("{}", e)),
-            AnyConn::R2d2(c) => c.interact(|c| c.serial).await.map_err(|e| format!("{}", e)),
-            AnyConn::Diesel(c) => c
-                .interact(move |c| {
-                    use diesel::RunQueryDsl;
-                    let v = diesel_user_version(c)?;
-                    if v == 0 {
-                        let _ = diesel::sql_query(format!("PRAGMA user_version = {}", fresh)).execute(c)?;
-                        Ok::<u64, diesel::result::Error>(fresh)
-                    } else {
-                        Ok(v as u64)
-                    }
-                })
-                .await
-                .map_err(|e| format!("{}", e))?
+            AnyConn::R2d2(c) => guarded(c.interact(|c| c.serial)).await?.map_err(|e| format!("{}", e)),
+            AnyConn::Diesel(c) => guarded(c.interact(move |c| {
+                use diesel::RunQueryDsl;
+                let v = diesel_user_version(c)?;
+                if v == 0 {
+                    let _ = diesel::sql_query(format!("PRAGMA user_version = {}", fresh)).execute(c)?;
+                    Ok::<u64, diesel::result::Error>(fresh)
+                } else {
+                    Ok(v as u64)
+                }
+            }))
+            .await?
+            .map_err(|e| format!("{}", e))?
                 .map_err(|e| format!("{}", e)),
         }
     }
     async fn use_ok(&self) -> Result<(), String> {
         match self {
-            AnyConn::Sqlite(c) => c.interact(|c| c.query_row("SELECT 1", [], |r| r.get::<_, i64>(0)).map(|_| ())).await.map_err(|e| format!("{}", e))?.map_err(|e| format!("{}", e)),
-            AnyConn::R2d2(c) => c.interact(|_| ()).await.map_err(|e| format!("{}", e)),
-            AnyConn::Diesel(c) => c.interact(|c| diesel_user_version(c).map(|_| ())).await.map_err(|e| format!("{}", e))?.map_err(|e| format!("{}", e)),
+            AnyConn::Sqlite(c) => guarded(c.interact(|c| c.query_row("SELECT 1", [], |r| r.get::<_, i64>(0)).map(|_| ()))).await?.map_err(|e| format!("{}", e))?.map_err(|e| format!("{}", e)),
+            AnyConn::R2d2(c) => guarded(c.interact(|_| ())).await?.map_err(|e| format!("{}", e)),
+            AnyConn::Diesel(c) => guarded(c.interact(|c| diesel_user_version(c).map(|_| ()))).await?.map_err(|e| format!("{}", e))?.map_err(|e| format!("{}", e)),
         }
     }
     /// true if the panic was reported as an error (a panic that comes out of `interact().await` itself is
@@ -350,9 +356,9 @@ pub fn history(backend: Backend, seed: u64, idx: u64) -> Case {
                         std::panic::panic_any(InjectedPanic(16));
                     };
                     match &held[i].0 {
-                        AnyConn::Sqlite(c) => drop(tokio::time::timeout(Duration::from_micros(50), c.interact(move |_| -> () { body() })).await),
-                        AnyConn::R2d2(c) => drop(tokio::time::timeout(Duration::from_micros(50), c.interact(move |_| -> () { body() })).await),
-                        AnyConn::Diesel(c) => drop(tokio::time::timeout(Duration::from_micros(50), c.interact(move |_| -> () { body() })).await),
+                        AnyConn::Sqlite(c) => drop(guarded(tokio::time::timeout(Duration::from_micros(50), c.interact(move |_| -> () { body() }))).await),
+                        AnyConn::R2d2(c) => drop(guarded(tokio::time::timeout(Duration::from_micros(50), c.interact(move |_| -> () { body() }))).await),
+                        AnyConn::Diesel(c) => drop(guarded(tokio::time::timeout(Duration::from_micros(50), c.interact(move |_| -> () { body() }))).await),
                     }
                     for _ in 0..2000 {
                         if started.load(Ordering::SeqCst) {
@@ -529,13 +535,12 @@ pub fn history(backend: Backend, seed: u64, idx: u64) -> Case {
                         }
                         (AnyConn::Diesel(c), _) => {
                             if !bad.contains(&m) {
-                                let r = c
-                                    .interact(|c| {
-                                        use diesel::connection::{AnsiTransactionManager, TransactionManager};
-                                        AnsiTransactionManager::begin_transaction(c)
-                                    })
-                                    .await;
-                                if matches!(r, Ok(Ok(()))) {
+                                let r = guarded(c.interact(|c| {
+                                    use diesel::connection::{AnsiTransactionManager, TransactionManager};
+                                    AnsiTransactionManager::begin_transaction(c)
+                                }))
+                                .await;
+                                if matches!(r, Ok(Ok(Ok(())))) {
                                     let _ = bad.insert(m);
                                     log.push(format!("left a transaction open on #{}", m));
                                 }
